@@ -79,8 +79,20 @@ Definition run_auth_scripts_f (fuel : nat) (scripts : list bytes) (vals : cache)
 
 End SoftFork.
 
-(* the predicate used by the correspondence run (harness/forkstream.py installs the same op in the
-   implementation with add_soft_fork): the fork op fails when the first removed item is false *)
+(* the predicates used by the correspondence run (harness/forkstream.py installs the same ops in the implementation with
+   add_soft_fork): a small family of checks on the removed items, [l] in the order they were popped (top first) *)
 Definition pred_top (l : list bytes) : bool := match l with [] => true | x :: _ => bytes_to_bool x end.
-Definition run_script_fork (orc : oracle) (cfg : config) (fcode : nat) := run_script_f orc cfg fcode pred_top.
-Definition run_auth_fork (orc : oracle) (cfg : config) (fcode : nat) := run_auth_scripts_f orc cfg fcode pred_top.
+Definition pred_fam (k : nat) (l : list bytes) : bool :=
+  match k with
+  | 0%nat => pred_top l                                                             (* fails when the first removed item is false *)
+  | 1%nat => forallb bytes_to_bool l                                                (* fails when any removed item is false *)
+  | 2%nat => match l with a :: b :: _ => bytes_eqb a b | _ => true end              (* fails when the first two removed items differ *)
+  | 3%nat => match l with x :: _ => (2 <=? List.length x)%nat | [] => true end      (* fails when the first removed item is shorter than 2 bytes *)
+  | 4%nat => false                                                                  (* always fails *)
+  | _ => true                                                                   (* never fails: indistinguishable from NOP *)
+  end.
+(* [fk] = code + 256 * (index of the predicate in the family) *)
+Definition run_script_fork (orc : oracle) (cfg : config) (fk : nat) :=
+  run_script_f orc cfg (Nat.modulo fk 256%nat) (pred_fam (Nat.div fk 256%nat)).
+Definition run_auth_fork (orc : oracle) (cfg : config) (fk : nat) :=
+  run_auth_scripts_f orc cfg (Nat.modulo fk 256%nat) (pred_fam (Nat.div fk 256%nat)).
